@@ -33,17 +33,29 @@ class InjectedFault(Exception):
     pass
 
 
+# the kind of exception a failing step raises: the property speaks of any failure, and handlers written for one
+# family of exceptions (an I/O fallback, say) must not turn another step's failure into a damaged destination
+EXC_KINDS = {
+    'InjectedFault': lambda k: InjectedFault('injected at step %d' % k),
+    'OSError': lambda k: OSError(28, 'No space left on device (injected at step %d)' % k),
+    'FileNotFoundError': lambda k: FileNotFoundError(2, 'No such file or directory (injected at step %d)' % k),
+    'ValueError': lambda k: ValueError('injected at step %d' % k),
+    'MemoryError': lambda k: MemoryError('injected at step %d' % k),
+}
+
+
 class Counter(object):
-    def __init__(self, k):
+    def __init__(self, k, exc='InjectedFault'):
         self.k = k          # None = just count
         self.n = 0
         self.fired = False
+        self.exc = exc
 
     def step(self):
         self.n += 1
         if self.k is not None and self.n == self.k:
             self.fired = True
-            raise InjectedFault('injected at step %d' % self.k)
+            raise EXC_KINDS[self.exc](self.k)
 
 
 def mods():
@@ -310,18 +322,23 @@ def run_config_source(cfg, source, res):
         if source != 'sanity' and n == 0:
             res.count('source_not_exercised')
             return
-        for k in range(1, n + 1):
+        plan = [(k, 'InjectedFault') for k in range(1, n + 1)]
+        if source != 'sanity':
+            plan += [(k, exc) for exc in ('OSError', 'FileNotFoundError', 'ValueError', 'MemoryError')
+                     for k in sorted({1, (n + 1) // 2, n})]
+        for k, exc in plan:
             env.reset()
-            ck = Counter(k)
+            ck = Counter(k, exc)
             with inject(source, ck, writer):
                 failed, info = env.run()
             res.evaluations += 1
             res.transitions += 1
-            case = {'cfg': list(cfg), 'source': source, 'k': k}
+            case = {'cfg': list(cfg), 'source': source, 'k': k, 'exc': exc}
+            source_tag = source if exc == 'InjectedFault' else source + '|exc=' + exc
             if not ck.fired:
                 res.count('fault_did_not_fire')
                 continue
-            res.nontriv((cfg, source, k))
+            res.nontriv((cfg, source, k, exc))
             after = open(env.dest, 'rb').read() if os.path.exists(env.dest) else None
             listing = sorted(os.listdir(env.d))
             if source == 'sanity' and not failed:
@@ -330,19 +347,23 @@ def run_config_source(cfg, source, res):
                                   'transformed code that does not re-parse was written to %s without error' % env.dest, case)
                 continue
             if not failed:
-                res.violation('C11|fault-swallowed|%s|%s|%s' % (entry, fmt, source),
-                              '%r: a fault in %s at step %d did not make the call fail' % (cfg, source, k), case)
+                if after == clean_bytes and listing == sorted(set(env.listing) | {os.path.basename(env.dest)}):
+                    res.outcome((entry, fmt, 'recovered'))     # the call coped with the fault and wrote the complete cart
+                    continue
+                res.violation('C11|fault-swallowed|%s|%s|%s' % (entry, fmt, source_tag),
+                              '%r: a fault (%s) in %s at step %d did not make the call fail, and the destination is not the '
+                              'cart a clean run writes' % (cfg, exc, source, k), case)
                 continue
             if after != env.before:
                 what = 'created' if env.before is None else ('deleted' if after is None else (
                     'truncated' if len(after) < len(env.before) else 'overwritten'))
-                res.violation('C11|destination-%s|%s|%s|%s' % (what, entry, fmt, source),
-                              '%r: %s failed at step %d/%d and the destination was %s (%s -> %s bytes)' % (
-                                  cfg, source, k, n, what, None if env.before is None else len(env.before),
+                res.violation('C11|destination-%s|%s|%s|%s' % (what, entry, fmt, source_tag),
+                              '%r: %s failed (%s) at step %d/%d and the destination was %s (%s -> %s bytes)' % (
+                                  cfg, source, exc, k, n, what, None if env.before is None else len(env.before),
                                   None if after is None else len(after)), case)
                 continue
             if listing != env.listing:
-                res.violation('C11|stray-files|%s|%s|%s' % (entry, fmt, source),
+                res.violation('C11|stray-files|%s|%s|%s' % (entry, fmt, source_tag),
                               '%r: %s failed at step %d and left files %r' % (cfg, source, k, sorted(set(listing) - set(env.listing))),
                               case)
                 continue
